@@ -156,6 +156,14 @@ class C18(Property):
             factor = 1000.0
         else:
             payload = raw
+        if g["cls"] != "nogrid" and len(shape) >= 2 and shape[0] != shape[-1] and spec["seed"] % 4 == 0:
+            # history: an invalid mask update (wrong shape, same size) is refused and must leave the Info as it was
+            try:
+                info.mask = np.zeros(shape[::-1], dtype=bool)
+                out.viol("invalid_mask_accepted", f"Info accepted a mask of shape {shape[::-1]} for a grid with data shape {shape}", spec=spec)
+                return
+            except fm.FinamMetaDataError:
+                out.count("refused_mask_updates")
         res = dt.prepare(payload, info)
         out.count("prepare_calls")
         mag = res.magnitude
@@ -252,7 +260,7 @@ class C18(Property):
 
     def coverage_gaps(self, counters, tier):
         need = ["compressions", "expansions", "prepare_calls", "prepare_flat_F_order", "accepts_calls", "link_exchanges",
-                "accept_expected_true", "accept_expected_false", "fixed_vs_fixed_relayout", "fixed_vs_fixed_grid_unset"]
+                "accept_expected_true", "accept_expected_false", "fixed_vs_fixed_relayout", "fixed_vs_fixed_grid_unset", "refused_mask_updates"]
         return [f"{k} never observed" for k in need if not counters.get(k)]
 
 
